@@ -119,7 +119,7 @@ def build_L(ctx, ob, wd):
     libll = ctx.lib_ll()
     h = os.path.join(HARNESS, ob.harness)
     hl = os.path.join(wd, 'h.ll')
-    r = subprocess.run(['clang-14', '-w', '-O0', '-Xclang', '-disable-O0-optnone', '-S', '-emit-llvm', '-DVF_CBMC'] + CPPFLAGS +
+    r = subprocess.run(['clang-14', '-w', '-O0', '-Xclang', '-disable-O0-optnone', '-S', '-emit-llvm', '-DVF_CBMC', '-DVF_LROUTE'] + CPPFLAGS +
                        ob.defflags() + [h, '-o', hl], capture_output=True, text=True)
     if r.returncode != 0: raise RuntimeError('clang harness: ' + r.stderr[-3000:])
     inc = set(included_c_files(h))
